@@ -186,7 +186,7 @@ def plan(tier, seed):
                   oracles={"result", "ctxerr"}, hooks="probe", extra={"max_nest": 2})
         if depth >= 6:
             kw["max_transitions"] = 50000
-        tasks += seqcheck.split(12 if depth <= 5 else 32, **kw)
+        tasks += seqcheck.split(4 if depth <= 3 else (8 if depth == 4 else 32), level=2, **kw)
     return tasks
 
 
